@@ -26,7 +26,7 @@ def main():
     a = sys.argv[1:]
     sid = a[0]
     wt = a[a.index("--wt") + 1] if "--wt" in a else f"/tmp/seed/{sid}"
-    prop = sid.split("-")[0]
+    prop = sid[:3]
     checks = a[a.index("--checks") + 1].split(",") if "--checks" in a else [prop]
     tier = a[a.index("--tier") + 1] if "--tier" in a else "quick"
     out = os.path.join(V, "seeded", sid)
